@@ -70,6 +70,7 @@ struct ContBase {
         int klass = s.pick({6, 3, 1});
         size_t len = klass == 0 ? (size_t)s.range(1, 8) : klass == 1 ? (size_t)s.range(9, 64) : (size_t)s.range(65, (long)maxlen);
         if (len > maxlen) len = maxlen;
+        if (s.chance(1, 40)) { static const size_t edge[] = {128, 256, 512, 1024, 4096}; len = edge[s.range(0, 4)] + (size_t)s.range(0, 2) - 1; }   // around plausible internal buffer sizes
         int fill = (int)s.range(0, 3);
         uint32_t x = (uint32_t)s.u8() * 2654435761u + 12345u;
         std::string v;
